@@ -12,7 +12,10 @@ class OracleQuery(Query):
     Defines a query class for use with Oracle.
     """
 
-    SQL_CONTEXT = DEFAULT_SQL_CONTEXT.copy(dialect=Dialects.ORACLE, alias_quote_char='"')
+    # Oracle does not support GROUP BY <select alias>: part of the dialect's context (see MSSQLQuery)
+    SQL_CONTEXT = DEFAULT_SQL_CONTEXT.copy(
+        dialect=Dialects.ORACLE, alias_quote_char='"', groupby_alias=False
+    )
 
     @classmethod
     def _builder(cls, **kwargs: Any) -> "OracleQueryBuilder":
